@@ -6,3 +6,5 @@ GROUPS = [
 ]
 ASSUMPTIONS = ['A5 counters below 2^58', 'mpsc_fifo_push / mpsc_fifo_trypop by the contracts proved under C15 (each pushed node popped exactly once; NULL only when empty or a push is in flight)',
                'get_work is called only by the caller that was told START_WORKING (single consumer); out_count is private to it']
+# obligation groups of other properties' specifications that this property also rests on (its anchors name those files); see DESIGN.md 11.2
+IMPORTS = [dict(prop='C15', groups=['mpsc_push', 'mpsc_trypop'])]
